@@ -193,7 +193,11 @@ class CellConversion:
             return CellRef(new_cell_key)
 
         assert isSurface(p_tree)
-        surfs = self.dic_surf_mcnp[abs(p_tree)]
+        try:
+            surfs = self.dic_surf_mcnp[abs(p_tree)]
+        except KeyError:
+            raise CellConversionError(f'surface {abs(p_tree.surface)} is not '
+                                      'defined') from None
 
         surf_colls = []
         mcnp_surfs = []
